@@ -64,7 +64,7 @@ NoEv == [t |-> 0, k |-> "", site |-> "", mo |-> "", loc |-> "", i |-> 0, v |-> 0
          op |-> "", h |-> 0, res |-> 0, vals |-> <<>>]
 
 L0 == [opi |-> 1, idx |-> 0, v |-> 0, obj |-> 0, e |-> 0, mark |-> 0, n |-> 0, i |-> 0, min |-> 0,
-       pend |-> {}, retired |-> {}, snap |-> {}]
+       pend |-> {}, retired |-> {}, snap |-> {}, nu |-> 0]
 
 MS0(c) == WMInit(1..Len(c.prog),
                  [x \in {<<"version", 0>>, <<"count", 0>>, <<"tcount", 0>>, <<"free", 0>>, <<"ptr", 0>>}
@@ -77,7 +77,7 @@ G0(c) == [acc |-> [h \in 1..c.nh |-> IF h <= c.pre THEN h - 1 ELSE -1],
           tslot |-> [t \in 1..Len(c.prog) |-> -1]]
 H0(c) == [open |-> [k \in (1..c.nh) \cup {10 + t : t \in 1..Len(c.prog)} |-> 0],
           unl |-> {}, bound |-> [k \in (1..c.nh) \cup {10 + t : t \in 1..Len(c.prog)} |-> MAXV],
-          freed |-> {}, next |-> 2, bad |-> ""]
+          freed |-> {}, bad |-> ""]
 
 InitFor(c) ==
   /\ cfg = c
@@ -324,9 +324,10 @@ Deref(t) ==
 
 Unlink(t, M(_)) ==
   /\ pc[t] = "idle" /\ HasOp(t) /\ Op(t).op = "unlink"
-  /\ DoRmw(t, PtrLoc, "xchg", LAMBDA o : H.next, H.next, "client_ptr_xchg", M,
-           LAMBDA old : /\ SetL(t, [L[t] EXCEPT !.pend = @ \cup {old}, !.opi = @ + 1])
-                        /\ H' = [H EXCEPT !.next = @ + 1, !.unl = @ \cup {k \in Keys : H.open[k] >= 1}])
+  \* object ids: 1 = the initial object, 10 * t + k = the k-th object installed by thread t
+  /\ DoRmw(t, PtrLoc, "xchg", LAMBDA o : 10 * t + L[t].nu + 1, 10 * t + L[t].nu + 1, "client_ptr_xchg", M,
+           LAMBDA old : /\ SetL(t, [L[t] EXCEPT !.pend = @ \cup {old}, !.nu = @ + 1, !.opi = @ + 1])
+                        /\ H' = [H EXCEPT !.unl = @ \cup {k \in Keys : H.open[k] >= 1}])
   /\ UNCHANGED <<cfg, pc, G>>
 
 \* free every retired object whose tick value the last mark has reached
